@@ -1,4 +1,107 @@
-import StrumModel
+import StrumProofs.C01
+/-
+C12 — ascii_case_insensitive folds ASCII letters only, only for the variants it covers.
+Together with C01 (`parse_iff`, stated in terms of `accepts`) these give the property.
+-/
 namespace Strum
-theorem c12_placeholder : True := trivial
+
+/-- which variants are case-insensitive: the variant's own flag wins, else the enum's -/
+theorem ci_flag_spec (d : EnumDef) (v : Variant) :
+    d.ciOf v = true ↔ (v.ci = some true ∨ (v.ci = none ∧ d.ci = true)) := by
+  unfold EnumDef.ciOf
+  cases h : v.ci with
+  | none => simp
+  | some b => cases b <;> simp
+
+/-- byte level: folding identifies two bytes iff they are equal or are the two cases of one ASCII letter -/
+theorem asciiLower_eq_iff (x y : Nat) :
+    asciiLower x = asciiLower y ↔
+      x = y ∨ (isLetter x = true ∧ isLetter y = true ∧ (x = y + 32 ∨ y = x + 32)) := by
+  unfold asciiLower isLetter isUpper isLower
+  by_cases hx : (65 ≤ x ∧ x ≤ 90) <;> by_cases hy : (65 ≤ y ∧ y ≤ 90) <;>
+    simp [hx, hy] <;> omega
+
+/-- bytes ≥ 0x80 (every byte of a non-ASCII character) and non-letters are never folded -/
+theorem asciiLower_eq_of_nonletter (x y : Nat) (h : asciiLower x = asciiLower y)
+    (hn : isLetter x = false ∨ isLetter y = false) : x = y := by
+  rcases (asciiLower_eq_iff x y).1 h with h | ⟨h1, h2, _⟩
+  · exact h
+  · rcases hn with hn | hn <;> simp_all
+
+theorem nonascii_not_letter (x : Nat) (h : 128 ≤ x) : isLetter x = false := by
+  unfold isLetter isUpper isLower
+  simp
+  omega
+
+/-- pointwise description of ASCII case folding -/
+def FoldEq : Bytes → Bytes → Prop
+  | [], [] => True
+  | a :: as, b :: bs =>
+    (a = b ∨ (isLetter a = true ∧ isLetter b = true ∧ (a = b + 32 ∨ b = a + 32))) ∧ FoldEq as bs
+  | _, _ => False
+
+/-- **`eq_ignore_ascii_case` = equal lengths and, position by position, equal bytes or the two cases
+    of one ASCII letter.** -/
+theorem eqIgnoreAsciiCase_iff_foldEq (a b : Bytes) : eqIgnoreAsciiCase a b = true ↔ FoldEq a b := by
+  induction a generalizing b with
+  | nil => cases b <;> simp [eqIgnoreAsciiCase, FoldEq]
+  | cons x xs ih =>
+    cases b with
+    | nil => simp [eqIgnoreAsciiCase, FoldEq]
+    | cons y ys =>
+      simp only [eqIgnoreAsciiCase, FoldEq, Bool.and_eq_true, beq_iff_eq, ih, asciiLower_eq_iff]
+
+/-- **non-ASCII bytes must match exactly**: wherever either side has a byte ≥ 0x80, the two strings
+    agree at that position. -/
+theorem non_ascii_exact (a b : Bytes) (h : eqIgnoreAsciiCase a b = true) (i : Nat)
+    (ha : i < a.length) (hb : i < b.length) (hi : 128 ≤ a[i] ∨ 128 ≤ b[i]) : a[i] = b[i] := by
+  have hm := (eqIgnoreAsciiCase_iff_map a b).1 h
+  have : (a.map asciiLower)[i]'(by simpa using ha) = (b.map asciiLower)[i]'(by simpa using hb) := by
+    simp only [hm]
+  simp only [List.getElem_map] at this
+  apply asciiLower_eq_of_nonletter _ _ this
+  rcases hi with hi | hi
+  · exact Or.inl (nonascii_not_letter _ hi)
+  · exact Or.inr (nonascii_not_letter _ hi)
+
+/-- a case-insensitive variant accepts exactly the inputs that fold to one of its spellings -/
+theorem ci_accepts_iff (d : EnumDef) (v : Variant) (hci : d.ciOf v = true) (s : Bytes) :
+    accepts d v s = true ↔ ∃ sp ∈ serializations d.style v, FoldEq s sp := by
+  unfold accepts
+  simp [hci, eqIgnoreAsciiCase_iff_foldEq]
+
+/-- every other variant stays case-sensitive: it accepts exactly its spellings -/
+theorem cs_accepts_iff (d : EnumDef) (v : Variant) (hcs : d.ciOf v = false) (s : Bytes) :
+    accepts d v s = true ↔ s ∈ serializations d.style v := by
+  unfold accepts
+  simp [hcs]
+
+/-- Unicode look-alikes whose *Unicode* case mapping is an ASCII letter (UTF-8 bytes):
+    KELVIN SIGN vs k/K, LONG S vs s/S, DOTLESS I vs i/I, DOTTED CAPITAL I vs i/I, SHARP S vs ss/SS -/
+def unicodeLookalikes : List (Bytes × Bytes) :=
+  [([226, 132, 170], [107]), ([226, 132, 170], [75]),
+   ([197, 191], [115]), ([197, 191], [83]),
+   ([196, 177], [105]), ([196, 177], [73]),
+   ([196, 176], [105]), ([196, 176], [73]),
+   ([195, 159], [115, 115]), ([195, 159], [83, 83])]
+
+/-- none of them matches under ASCII folding, in either direction (whole table, by evaluation) -/
+theorem lookalikes_rejected :
+    ∀ p ∈ unicodeLookalikes, eqIgnoreAsciiCase p.1 p.2 = false ∧ eqIgnoreAsciiCase p.2 p.1 = false := by
+  decide
+
+/-- a look-alike substituted for a letter inside a longer spelling is rejected as well: a non-ASCII
+    byte on one side forces equality at that position -/
+theorem nonascii_vs_ascii_rejected (a b : Bytes) (i : Nat) (ha : i < a.length) (hb : i < b.length)
+    (h1 : 128 ≤ a[i]) (h2 : b[i] < 128) : eqIgnoreAsciiCase a b = false := by
+  cases h : eqIgnoreAsciiCase a b with
+  | false => rfl
+  | true =>
+    have := non_ascii_exact a b h i ha hb (Or.inl h1)
+    omega
+
+/-! non-vacuity -/
+example : eqIgnoreAsciiCase [75, 105, 195, 159] [107, 73, 195, 159] = true := by decide
+example : FoldEq [75, 105] [107, 73] := by simp [FoldEq, isLetter, isUpper, isLower]
+
 end Strum
